@@ -5,6 +5,8 @@ Single-pass checker over the trace recorded for each monitored solve: trial step
 pygradflow.solver.penalty_strategy), ComputedStep callbacks (with object identities) and
 the SolverResult summary fields, path and model times.
 """
+import numpy as np
+
 from .. import boot  # noqa: F401
 from .. import cfg as C
 from .. import mon, work
@@ -39,6 +41,12 @@ def gen_cases(tier, seed):
         case["y0"] = "rand" if rng.random() < 0.4 else "none"
         if rng.random() < 0.1:
             case["x0"] = "none"
+        if rng.random() < 0.2:
+            # a step-size policy that answers accepted steps with extreme inverse step sizes: the model clock first
+            # becomes huge, later steps are tiny compared with it (down to t + dt == t)
+            case["lamb_script"] = int(rng.integers(0, 10 ** 6))
+            cfgd["collect_path"] = True
+            cfgd["iteration_limit"] = int(rng.choice([5, 40, 120]))
         cases.append(case)
         k += 1
     return cases
@@ -52,14 +60,28 @@ def run_case(case):
     if case["gseed"][-1] % 3 == 0 and p.x0 is not None:
         # the caller owns x0 / y0 and re-uses those buffers while the solve is running (a callback that
         # publishes the newest trial point into them); the solve must not depend on them any more
-        import numpy as np
-
         def cb(iterate, next_iterate, accept, _x0=p.x0, _y0=p.y0):
             _x0[:] = np.resize(np.asarray(next_iterate.x, dtype=float), _x0.shape) + 1.0
             if _y0 is not None and _y0.size:
                 _y0[:] = -7.0
 
-    out = mon.run_solve(p.rec, p.params, p.x0, p.y0, user_callback=cb)
+    script = None
+    if "lamb_script" in case:
+        from ..gen import rng_for
+
+        r2 = rng_for("lambscript", case["lamb_script"])
+        lo, hi = float(p.params.lamb_min), float(p.params.lamb_max)
+        seq = [(lo if r2.random() < 0.8 else lo * 10.0 ** r2.uniform(0, 3)) for _ in range(int(r2.integers(1, 3)))]
+        seq += [min(hi * 1e-3, 10.0 ** r2.uniform(4, 9)) for _ in range(int(r2.integers(2, 6)))]
+
+        def script(i, res, _seq=seq, _n=[0]):
+            if not res.accepted:
+                return None
+            v = _seq[_n[0] % len(_seq)]
+            _n[0] += 1
+            return v
+
+    out = mon.run_solve(p.rec, p.params, p.x0, p.y0, user_callback=cb, lamb_script=script)
     if cb is not None:
         # the trace checker compares with the start values handed over
         p.x0, p.y0 = x0_expected, y0_expected
@@ -76,6 +98,10 @@ def run_case(case):
                        "paths_checked": stats.get("paths_checked", 0)})
     res["ctr"]["penalty_" + p.cfg["penalty"]] = 1
     res["ctr"]["runs_with_caller_reusing_start_buffers"] = int(cb is not None)
+    if script is not None and out.result.model_times is not None:
+        mt = np.asarray(out.result.model_times, dtype=float)
+        res["ctr"]["runs_with_scripted_step_sizes"] = 1
+        res["ctr"]["runs_with_absorbed_model_time"] = int(mt.size > 1 and bool(np.any(np.diff(mt) == 0.0)))
     res["ctr"]["control_" + p.cfg["control"]] = 1
     if stats["trials"] >= 2:
         res["nt_keys"] = ["%s-%s" % (case["fam"], "-".join(map(str, case["gseed"])))]
@@ -88,10 +114,11 @@ def run_case(case):
 def finalize(agg, tier):
     return {
         "rule": "all problem families x random (controller, penalty policy incl. 40% filter policies that veto steps, "
-                "Newton type, scaling) x iteration limits 0/1/2/5/40/120 x collect_path in 70% of the runs; non-trivial = "
+                "Newton type, scaling) x iteration limits 0/1/2/5/40/120 x collect_path in 70% of the runs x in 20% of the runs a scripted step-size policy (accepted steps answered with inverse step sizes at lamb_min, then 1e4..1e9: model clock huge, later steps absorbed by it); non-trivial = "
                 "the solve computed at least two trial steps; distinct by spec seed",
         "floors": {"results_checked": 500, "vetoed_trials": 50, "rejected_trials": 200, "paths_checked": 300,
-                   "effective_accepts": 3000, "runs_with_caller_reusing_start_buffers": 100},
+                   "effective_accepts": 3000, "runs_with_caller_reusing_start_buffers": 100,
+                   "runs_with_scripted_step_sizes": 60, "runs_with_absorbed_model_time": 15},
         "assumptions": ["effective acceptance = controller accepted and (no penalty decision or penalty accepted), taken "
                         "from the penalty proxy and object identities, never from value equality"],
     }
